@@ -11,3 +11,5 @@ import PqVerif.Props.C14
 import PqVerif.Props.C11
 import PqVerif.Props.C04
 import PqVerif.Props.C16
+import PqVerif.Props.C01
+import PqVerif.Props.C05
